@@ -2,7 +2,7 @@
 import vlib
 
 SUB = "c08"
-MODULES = ["Mtv.Props.C08"]
+MODULES = ["Mtv.Props.C08", "Mtv.Props.Arith"]
 THEOREMS = [
     "Mtv.Framing.readFullSegs_spec",
     "Mtv.Framing.readFull_chunking",
@@ -46,7 +46,7 @@ def run(ctx):
         "c08.dl: timing is not modelled (the driver answers what the model says about the two streams of frames); whether the "
         "slow-writer variants really block depends on the machine's socket buffer limits (counted in the distribution's extra)",
     ]
-    return vlib.generic_check(ctx, SUB, MODULES, THEOREMS, RULE)
+    return vlib.generic_check(ctx, SUB, MODULES, THEOREMS + vlib.ARITH_THEOREMS["C08"], RULE, gen_hook=vlib.regen_arith)
 
 
 def replay(ctx, path):
